@@ -444,6 +444,47 @@ func c10Backoff(c *Ctx) {
 			}
 		}
 		c.R.Floor("R-C10-2", 3)
+		// once the cause was found recoverable every failed attempt is retried: inside the back-off loop a
+		// DialFunc error never ends init — only success, cancellation or the exhausted budget do (the
+		// errors seen while a flapped link settles are mostly unclassified fmt.Errorf("%v") texts)
+		nLoop, badRet := 0, ""
+		for _, p := range ps {
+			waits := callsOnPath(p, func(cc *ssa.CallCommon) bool {
+				f := an.CalleeObj(cc)
+				return f != nil && f.Pkg() != nil && f.Pkg().Path() == "time" && (f.Name() == "After" || f.Name() == "NewTimer")
+			})
+			if len(waits) == 0 {
+				continue
+			}
+			var last ssa.CallInstruction
+			for _, ci := range callsOnPath(p, func(cc *ssa.CallCommon) bool { _, ok := fieldLoadCall(cc, PkgSystem, "Dialer", "DialFunc"); return ok }) {
+				last = ci
+			}
+			if last == nil {
+				continue
+			}
+			lv, _ := last.(ssa.Value)
+			failed := false
+			for _, a := range p.Atoms {
+				x, y, op, ok := effCmp(a)
+				if !ok || !exprIsNil(y) || op != token.NEQ {
+					continue
+				}
+				if b, i := stripExtract(x); i == 1 && b.V == lv && lv != nil {
+					failed = true
+				}
+			}
+			if !failed {
+				continue
+			}
+			nLoop++
+			if p.Ret != nil || p.Panic != nil {
+				badRet = "init returns after a failed attempt inside the back-off loop under " + atomsString(p)
+			}
+		}
+		c.R.Check(badRet == "" && nLoop >= 1, "R-C10-2", fn+":failed-attempt-is-retried", fn, c.pos(ini.Pos()), fmt.Sprintf("%d path(s) through a failed attempt in the loop; %s", nLoop, badRet),
+			"a failed re-dial attempt continues the loop (only success, cancellation or 50 failed attempts end it)",
+			"a transient, unclassified dial error during back-off ends the task although its cause was recoverable")
 	}
 	// receiveRetry: bound 5, wait i·50ms
 	rr := c.P.Method("internal/corerad", "listener", "receiveRetry")
